@@ -58,6 +58,8 @@ Section Ctor.
      ("String", fun a => match a with [AStr s] => Some (EStr s) | _ => None end);
      ("Int", fun a => match a with [AInt z] => Some (EInt z) | _ => None end);
      ("Bool", fun a => match a with [ABool b] => Some (EBool b) | _ => None end);
+     (* Float(f): the argument travels as strconv.FormatFloat(f, 'f', -1, 64), the text EFloat carries *)
+     ("Float", fun a => match a with [AStr t] => Some (EFloat t) | _ => None end);
      ("Null", fun a => match a with [] => Some ENull | _ => None end);
      ("Default", fun a => match a with [] => Some EDefault | _ => None end);
      ("Interval", fun a => match a with [AStr s] => Some (EInterval s) | _ => None end);
